@@ -499,7 +499,7 @@ _TPL_CACHE = {}
 def templates_for(cfg, db):
     k = (cfg[0], sx(db))
     if k not in _TPL_CACHE:
-        if len(_TPL_CACHE) > 20000:
+        if len(_TPL_CACHE) > 1500:
             _TPL_CACHE.clear()
         _TPL_CACHE[k] = _templates_for(cfg, db)
     return _TPL_CACHE[k]
